@@ -233,6 +233,15 @@ def replay(chk, payload):
         print(out[0][:2000])
         r = junline(out[0])
         found = []
+        if '"cli_natural"' in inp:
+            # faults that occur without injection: every channel must leave nothing behind and print nothing on stdout
+            for channel in ("file", "stdin", "gone", "gone-stdin"):
+                c = r.get(channel) or {}
+                if not str(c.get("line", "")).endswith("left -"):
+                    found.append((f"{channel}: the run leaves {c.get('new')} behind", {"input": inp, "channel": channel, "impl": r}))
+                if c.get("stdout_bytes") and not channel.startswith("gone"):
+                    found.append((f"{channel}: bytes on stdout although the run failed", {"input": inp, "channel": channel, "impl": r}))
+            return conclude(chk, [], lambda: found)
         if r.get("nmismatch") or r.get("left"):
             found.append(("concurrent runs differ from solitary runs or leave files behind", {"input": inp, "impl": r}))
         return conclude(chk, [], lambda: found)
